@@ -44,6 +44,39 @@ const (
 	EAGAIN    = syscall.EAGAIN
 	EACCES    = syscall.EACCES
 	EPERM     = syscall.EPERM
+	// not produced by the simulated kernel itself, but injectable as faults and
+	// available to code under test that distinguishes them
+	EROFS        = syscall.EROFS
+	EFBIG        = syscall.EFBIG
+	EDQUOT       = syscall.EDQUOT
+	ENOMEM       = syscall.ENOMEM
+	EBUSY        = syscall.EBUSY
+	ENXIO        = syscall.ENXIO
+	ENODEV       = syscall.ENODEV
+	EOVERFLOW    = syscall.EOVERFLOW
+	ESPIPE       = syscall.ESPIPE
+	EMFILE       = syscall.EMFILE
+	ENFILE       = syscall.ENFILE
+	ENAMETOOLONG = syscall.ENAMETOOLONG
+	ELOOP        = syscall.ELOOP
+	EXDEV        = syscall.EXDEV
+	EMLINK       = syscall.EMLINK
+	ETXTBSY      = syscall.ETXTBSY
+	ENOTSUP      = syscall.ENOTSUP
+	EOPNOTSUPP   = syscall.EOPNOTSUPP
+	ENOSYS       = syscall.ENOSYS
+	EFAULT       = syscall.EFAULT
+	EDEADLK      = syscall.EDEADLK
+	ENOLCK       = syscall.ENOLCK
+	ERANGE       = syscall.ERANGE
+	EPIPE        = syscall.EPIPE
+	EWOULDBLOCK  = syscall.EWOULDBLOCK
+	ETIMEDOUT    = syscall.ETIMEDOUT
+	ESTALE       = syscall.ESTALE
+	ENOTTY       = syscall.ENOTTY
+	ENOTSOCK     = syscall.ENOTSOCK
+	ENODATA      = syscall.ENODATA
+	ECANCELED    = syscall.ECANCELED
 )
 
 type Stat_t = realunix.Stat_t
